@@ -174,27 +174,22 @@ class SequenceContainer(common.Parseable, common.XmlObject):
                 em.LongDescription(self.long_description)
             )
 
-        if (
-                (self.restriction_criteria and not self.base_container_name) or
-                (not self.restriction_criteria and self.base_container_name)
-        ):
-            raise ValueError("The restriction_criteria and base_container_name must be specified together or "
-                             "not at all.")
-
-        if len(self.restriction_criteria) == 1:
-            restrictions = self.restriction_criteria[0].to_xml(elmaker=elmaker)
-        else:
-            restrictions = em.ComparisonList(
-                *(rc.to_xml(elmaker=elmaker) for rc in self.restriction_criteria)
-            )
+        if self.restriction_criteria and not self.base_container_name:
+            raise ValueError("The restriction_criteria require a base_container_name.")
 
         if self.base_container_name:
-            sc.append(
-                em.BaseContainer(
-                    em.RestrictionCriteria(restrictions),
-                    containerRef=self.base_container_name
-                ),
-            )
+            base_container = em.BaseContainer(containerRef=self.base_container_name)
+            # A BaseContainer without RestrictionCriteria (unconditional inheritance) is valid XTCE and is what
+            # from_xml produces for such a document, so it must be writable too.
+            if self.restriction_criteria:
+                if len(self.restriction_criteria) == 1:
+                    restrictions = self.restriction_criteria[0].to_xml(elmaker=elmaker)
+                else:
+                    restrictions = em.ComparisonList(
+                        *(rc.to_xml(elmaker=elmaker) for rc in self.restriction_criteria)
+                    )
+                base_container.append(em.RestrictionCriteria(restrictions))
+            sc.append(base_container)
 
         entry_list = em.EntryList()
         for entry in self.entry_list:
